@@ -152,10 +152,16 @@ func init() {
 			"in 70% of the cases held pending together (the handlers wait until every top-level listener has been started, so every listener is offered every notification of the case); CommandBusConfig.OnSend hook of the case that edits the metadata of every outgoing command {none, copy-parent: copies all metadata of the message being handled (cqrs.OriginalMessageFromCtx of the outgoing message's context) incl. its operation id, copy-last: copies all metadata of the command published last incl. its (foreign) operation id, replace-map: assigns a new Metadata map, delete-keys: deletes every key but the command name, add-keys, stale-opid: writes a stale value under the operation-id key}; " +
 			"nested requests (60% of the cases, 45% of the commands there): the request-reply handler of an 'outer' command makes, with its handler context, a SendWithReply on the same bus for a fresh 'leaf' command on its own backend or on another backend of the case and returns a result derived from the nested reply (one nested request per redelivery); handler outcomes {result, error 1..2 times then success}; 7% of the commands are handled by nobody and stay pending; caller behaviours {drain, listen: read everything until the whole case is quiescent and end only then, late-drain, never-read, SendWithReply}, context {no deadline, 1 h}, ended by {cancel, the caller's context}. " +
 			"Oracle of the mix class: every reply a top-level caller or a nested request receives is attributed through the notification it exposes to the command delivery it was built for (foreign-reply) and must carry that delivery's result - compared as JSON after decoding with the caller's own Result type - and error (reply-result, reply-error-*); a ReplyUnmarshalError reply is a violation (foreign-unmarshal-error): every notification of the workload decodes into the Result type of the backend that produced it (checked per notification, else inconclusive), so such a reply can only stem from another request's notification; " +
-			"every reading caller gets all replies of its command, a SendWithReply the first (reply-missing, also when it waits for ever at quiescence); a nested SendWithReply that has not returned at quiescence never will (nested-reply-missing); a command handed to its handler more than 60 times is a redelivery loop (runaway-redelivery); settled-before-reply-published, command-settlement per backend, listener-not-finished (exactly one OnListenForReplyFinished per top-level and per nested request), listener-goroutine-leak, reply-channel-not-closed as in the first class. Non-trivial (mix): a listener was offered a foreign notification (counted at the requestreply.listen.notification hook point; how many of them its Result type cannot decode is a counter), the OnSend hook edited a command, or a nested request was made.",
+			"every reading caller gets all replies of its command, a SendWithReply the first (reply-missing, also when it waits for ever at quiescence); a nested SendWithReply that has not returned at quiescence never will (nested-reply-missing); a command handed to its handler more than 60 times is a redelivery loop (runaway-redelivery); settled-before-reply-published, command-settlement per backend, listener-not-finished (exactly one OnListenForReplyFinished per top-level and per nested request), listener-goroutine-leak, reply-channel-not-closed as in the first class. Non-trivial (mix): a listener was offered a foreign notification (counted at the requestreply.listen.notification hook point; how many of them its Result type cannot decode is a counter), the OnSend hook edited a command, or a nested request was made. " +
+			"Third class 'undec' (case indices after those of the mix class: 400 quick / 12000 thorough; file undec.go): replies of the caller's OWN command that do not decode with the caller's Result type. 1..10 concurrent SendWithReplies / SendWithReply calls on one shared reply topic, 1..3 command processors (fan-out), AckCommandErrors on (30%) / off, handler fails 0..3 times then succeeds: 1..12 replies per request; 80% of the requests have 1..3 of their replies (chosen per (handler, attempt)) made undecodable for the listening side by one of the case's sources " +
+			"{type: the handlers are registered with a PubSubBackend of another Result type (id is `any`: returned as a number it does not decode into the callers' Result type whose id is a string), marshaler: the callers' backend has a custom BackendPubsubMarshaler whose UnmarshalReply fails on the chosen replies (its error names the command), decorator: a decorator of the reply publisher replaces the payload {truncated JSON, empty, array, string, invalid bytes, object with fields of the wrong type}, modify: ModifyNotificationMessage replaces the payload; a case uses one source or all four mixed}; the other 20% are controls sharing the reply topic; " +
+			"caller behaviours {drain, never-read, one-stop: read one reply then stop, late-drain, SendWithReply}; caller context {no deadline, 1 h, deadline 3..12 ms}; optional ListenForReplyTimeout (25 ms, 35% of the cases); ended by {cancel function, the caller's context, nothing: time-out / deadline} - callers that stopped reading never end a request that a time-out or near deadline ends. " +
+			"Oracle of the undec class: (part 0) once every reply has been produced and the process is quiescent after the last time-out / near deadline, every request with ListenForReplyTimeout or a near deadline has had its OnListenForReplyFinished exactly once, whatever its caller does and before anyone ended a request or touched a channel (listener-not-finished); (part 1) after the remaining callers ended their requests, at quiescence: exactly one OnListenForReplyFinished per request (listener-not-finished), no listener goroutine left (listener-goroutine-leak), " +
+			"reading callers saw their channel closed (timeout-not-honoured / context-end-not-honoured / reply-channel-not-closed / caller-stuck); (part 2) the untouched reply channels of callers that stopped reading are closed (reply-channel-not-closed). A caller that drains (promptly or late) with nothing but itself ending the request receives every decodable reply of its command with the handler's result and error text (reply-missing, reply-result, reply-error-*) and one ReplyUnmarshalError reply per undecodable reply of its command (unmarshal-error-not-reported; godoc of Reply.Error: 'Error contains the error returned by the command handler or the Backend when handling notification fails. Handling the notification can fail, for example, when unmarshaling the message'); " +
+			"no caller receives more ReplyUnmarshalError replies than undecodable replies were produced for its own command, nor one whose (marshaler) text names another command (foreign-unmarshal-error), nor a reply of another command (foreign-reply); a reply whose notification was seen not to decode into the caller's Result type on its way to the reply topic (or that the caller's marshaler refused) must not be handed out as a result (undecodable-reply-not-flagged); settled-before-reply-published and command-settlement as in the first class (whether the requester can decode a reply does not influence the settlement). Non-trivial (undec): at least one own undecodable reply was scripted.",
 		Assumptions: []string{
 			"replies after cancel/timeout may be ReplyTimeoutError values; they are not attributed to a command",
-			"quiescence is judged only after every pending context deadline below 10 min has passed by 40 ms (context deadlines are invisible in goroutine dumps); the deadlines are read at the boundary: from the context the backend hands to the reply subscriber's Subscribe and from the caller contexts the harness creates; the 1 h deadline never fires within a case, so 'still listening at quiescence' is final",
+			"quiescence is judged only after every pending context deadline below 10 min has passed by 40 ms AND the context carrying it was observed done (ctx.Err() != nil) before the quiescence detector took the snapshots it uses - on a loaded machine the runtime may fire an expired context timer late, so no verdict assumes when a timer fires (context deadlines are invisible in goroutine dumps); the deadlines are read at the boundary: from the context the backend hands to the reply subscriber's Subscribe and from the caller contexts the harness creates; the 1 h deadline never fires within a case, so 'still listening at quiescence' is final",
 			"reply completeness is demanded only when neither ListenForReplyTimeout nor a near context deadline is in play (under load those may legitimately end the listening before a reply arrives)",
 			"GoChannel may reorder the replies of one command: a late-draining caller counts replies, it does not stop at the successful one",
 			"a send that panics leaves the listener running until the caller's context ends (the statement names cancel, context end and time-out as the triggers; after a panic the caller holds only its context): such listeners are judged after the caller ended its context; how many were still running at quiescence before that is reported as a counter only",
@@ -165,6 +171,8 @@ func init() {
 			"mix class: an OnSend hook may write any metadata key of the outgoing command, the operation-id key included: SendWithReplies stamps the operation id through the modify argument of SendWithModifiedMessage, which the bus applies to the message after OnSend (on the message OnSend left behind, also when OnSend assigned a new Metadata map); hooks never alias the metadata map of another message and never copy the command-name key",
 			"mix class: the nested request is sent to a handler other than the one that makes it (GoChannel hands a subscriber its next message only after the previous one was settled, so a handler waiting for a command queued behind its own delivery would wait for ever by construction); a nested SendWithReply whose first reply is an error reply (leaf handler fails once, AckCommandErrors=false) returns that reply, later replies of the leaf command find no listener",
 			"mix class: foreign notifications offered to listeners are counted at the hook point in front of the listener's filter (counters and non-triviality only, no verdict depends on it)",
+			"undec class: an own reply that the listening side cannot unmarshal is reported as a Reply whose Error is a ReplyUnmarshalError (godoc of Reply.Error) and travels to the caller like every other reply; completeness (one ReplyUnmarshalError per undecodable own reply, every decodable reply) is demanded only from draining callers whose request nothing but themselves can end; a ReplyUnmarshalError carries no NotificationMessage, so such replies are attributed by count (never more than undecodable replies of the caller's own command) and, for the custom marshaler, by the command its error text names",
+			"undec class: quiescence is judged only after every pending deadline (ListenForReplyTimeout read from the context handed to the reply subscriber's Subscribe, near caller deadlines) has passed by 80 ms and its context was observed done, as in the first class; undecodability of a scripted reply is confirmed at the boundary (the payload leaving for the reply topic is probed with encoding/json against the callers' Result type; the custom marshaler returns the error itself)",
 		},
 		Run: dispatch,
 	})
@@ -264,39 +272,11 @@ func run(e *vlib.Env) vlib.Result {
 	var runawayCmd atomic.Pointer[string]
 	defer runawayOnce.Do(func() { close(runaway) })
 
-	// Pending context deadlines (invisible to the quiescence detector): the latest one below 10 min, read at the boundary.
-	var deadlineMax time.Time
-	noteDeadline := func(ctx context.Context) {
-		if d, ok := ctx.Deadline(); ok && time.Until(d) < 10*time.Minute {
-			mu.Lock()
-			if d.After(deadlineMax) {
-				deadlineMax = d
-			}
-			mu.Unlock()
-		}
-	}
-	deadlineBound := func() time.Time {
-		mu.Lock()
-		defer mu.Unlock()
-		if deadlineMax.IsZero() {
-			return time.Time{}
-		}
-		return deadlineMax.Add(deadlineMargin)
-	}
-	// waitT: WaitUntil that trusts "stuck" only after every deadline known by then has passed
-	waitT := func(cond func() bool) (vlib.Outcome, string) {
-		for {
-			o := wo
-			o.NotBefore = deadlineBound()
-			oc, d := vlib.WaitUntil(cond, o)
-			if oc != vlib.Stuck {
-				return oc, d
-			}
-			if b := deadlineBound(); b.IsZero() || time.Now().After(b) {
-				return oc, d
-			}
-		}
-	}
+	// Pending context deadlines (invisible to the quiescence detector), read at the boundary: "stuck" is trusted only after every
+	// deadline known by then has passed and the contexts carrying them were observed done (see deadlines.go)
+	dw := &deadlineWatch{margin: deadlineMargin}
+	noteDeadline := dw.note
+	waitT := func(cond func() bool) (vlib.Outcome, string) { return dw.wait(cond, wo) }
 
 	replyFaultAt := map[string]map[int]bool{}   // command id -> handler attempts whose reply publish is rejected
 	tolerateAt := map[string][]bool{}           // command id -> answer of the ReplyPublishErrorHandler per attempt (true = nil)
